@@ -186,6 +186,8 @@ PROPS['C16']={
  'assumptions':WIRE_ASSUME+['Unicode beyond ASCII in free strings is covered by fixed samples only; pretty printing is serde_json\'s'],
  'obligations':[{'name':w,'module':'harness.wire','cls':'RoundTrip','quick':{'what':w,'prop':'C16','nbytes':1,'rate':WIRE_RATE.get(w,10)},'thorough':{'what':w,'prop':'C16','nbytes':2,'rate':WIRE_RATE.get(w,10)},'validate':{'quick':6,'thorough':24}} for w in WIRE_TYPES_Q]}
 
+PROPS['C16']['obligations']+=[{'name':'writers_deterministic','module':'harness.wire','cls':'WritersDeterministic','quick':{},'thorough':{},'validate':{'quick':2,'thorough':2}}]
+PROPS['C16']['bounds_statement']+='  Also: Json::to_writer and JsonPretty::to_writer write the same bytes for one link under every hash-map iteration order.'
 PROPS['C19']={
  'bounds_statement':'(1) Statement v0.1 documents declaring each known / an unknown predicate type around predicate documents of each format, hybrids and the empty object (free leaves), parsed by the version-detecting StatementWrapper from MIR: acceptance implies the declared type names the recognised format, and no predicate document is accepted by two formats; (2) every predicate / statement value of bounded shape (LinkV02, SLSA v0.1 with timestamps in Z and +01:00 notation, SLSA v0.2; Naive and v0.1 statements) serialises to a form that parses back to an equal value on every channel; (3) from_meta / merge carry all link fields over.',
  'assumptions':WIRE_ASSUME+['chrono text <-> instant through the ghost-string model (C06); strum\'s EnumIter-generated iterators run from MIR'],
